@@ -1035,6 +1035,37 @@ pub fn c18(thorough: bool) -> Vec<Part> {
         path.extend([SAct::Kill, SAct::Poll(0), SAct::Poll(1000), SAct::Poll(0)]);
         histories(&mut part, &cfg, path, from);
     }
+    if part.violations.is_empty() {
+        // long history: 320 requests of one connection yielded and never answered, one more
+        // request unread, then the kill switch (the connection's event before or behind it)
+        let mut script = vec![];
+        for seg in 0..9 {
+            let mut v = vec![];
+            for k in 0..40 {
+                v.extend_from_slice(&tagged_get(0, seg * 40 + k));
+            }
+            script.push(v);
+        }
+        let mut cl = ClientCfg::adversary(script);
+        cl.can_close = false;
+        cl.can_shut_rd = false;
+        cl.can_shut_wr = false;
+        for order in [0u16, 1000] {
+            let mut cfg = SrvCfg::base("C18", "scripted: 320 unanswered requests of one connection, more input unread, then kill", vec![cl.clone()]);
+            cfg.kill_switch = true;
+            cfg.kill_action = true;
+            cfg.max_depth = 1000;
+            let mut path = vec![SAct::Connect(0), SAct::Poll(0)];
+            for _ in 0..8 {
+                path.push(SAct::Send(0));
+                path.extend(rep(SAct::Poll(0), 3));
+            }
+            path.push(SAct::Send(0));
+            let from = path.len();
+            path.extend([SAct::Kill, SAct::Poll(order), SAct::Poll(1000 - order), SAct::Poll(order)]);
+            histories(&mut part, &cfg, path, from);
+        }
+    }
     vec![part]
 }
 
